@@ -132,15 +132,141 @@ theorem mapM_encode_se : ∀ (l : List Bytes),
     simp only [List.map_cons, List.mapM_cons, encode, if_true, mapM_encode_se l]
     rfl
 
+def isOk {ε α : Type} : Except ε α → Bool
+  | .ok _ => true
+  | .error _ => false
+
+theorem exists_of_isOk {ε α : Type} {x : Except ε α} (h : isOk x = true) : ∃ a, x = .ok a := by
+  cases x <;> simp_all [isOk]
+
 /-! ### decoding -/
 
-theorem decodeUsing_ok {k : Codec} {c : Commit} {cm : PStr} {au msg : Option PStr}
-    (h : decodeUsing k c = .ok (cm, au, msg)) :
-    cm = ⟨k, c.committer⟩ ∧ au = (if c.committer ≠ c.author then some ⟨k, c.author⟩ else none) ∧
-    msg = c.message.map (fun m => ⟨k, m⟩) := by
+/-- the two encoding names the code itself uses (`"utf-8"`, `"latin1"`) mean
+utf-8 and latin-1 in the registry -/
+def PyEnv (env : Env) : Prop :=
+  env.lookup (bs "utf-8") = .utf8 ∧ env.lookup (bs "latin1") = .latin1
+
+instance (env : Env) : Decidable (PyEnv env) := by unfold PyEnv; infer_instance
+
+def isStd : Lookup → Bool
+  | .utf8 | .latin1 | .ascii => true
+  | _ => false
+
+/-- `b.decode(name).encode(name) == b` (vacuous when the decode raises) -/
+def faithful (env : Env) (name b : Bytes) : Bool := reenc env name b
+
+/-- the same for the author, whose decoded str must also be non-empty and
+untouched by the `"," … ">"` hack of `export_commit` -/
+def faithfulAuthor (env : Env) (name b : Bytes) : Bool :=
+  match decodeName env name b with
+  | .ok s => decide (s.bytes ≠ []) && decide (firstAuthor s.bytes = s.bytes) &&
+      decide (encodeName env name s = .ok b)
+  | .error _ => true
+
+/-- **the codec named in the `encoding` header re-encodes the commit's three
+text fields to the bytes they were decoded from** (decidable; trivially true
+without a header, with `encoding false`, and — `faith_of_std` — whenever the name
+resolves to utf-8 / latin-1 / ascii) -/
+def CodecFaithful (env : Env) (c : Commit) : Bool :=
+  match c.encoding with
+  | some e =>
+    if e = bs "false" then true
+    else faithful env e c.committer && faithfulAuthor env e c.author &&
+      (match c.message with
+       | some m => faithful env e m
+       | none => true)
+  | none => true
+
+theorem decodeName_std {env : Env} {name b : Bytes} {s : PStr} (h : isStd (env.lookup name) = true)
+    (hd : decodeName env name b = .ok s) : s.bytes = b ∧ encodeName env name s = .ok b := by
+  unfold decodeName at hd
+  unfold encodeName
+  cases hl : env.lookup name <;> simp only [hl, isStd] at h hd ⊢ <;>
+    first
+    | exact absurd h (by decide)
+    | (unfold decode at hd
+       split at hd
+       · simp only [Except.ok.injEq] at hd
+         subst hd
+         simp [encode]
+       · simp at hd)
+
+/-- what `export_commit` needs to know about the codec it re-encodes with -/
+structure Faith (env : Env) (name : Bytes) (c : Commit) : Prop where
+  committer : ∀ s, decodeName env name c.committer = .ok s → encodeName env name s = .ok c.committer
+  author : ∀ s, decodeName env name c.author = .ok s →
+    s.bytes ≠ [] ∧ firstAuthor s.bytes = s.bytes ∧ encodeName env name s = .ok c.author
+  message : ∀ m s, c.message = some m → decodeName env name m = .ok s → encodeName env name s = .ok m
+
+theorem faith_of_std {env : Env} {name : Bytes} {c : Commit} (h : isStd (env.lookup name) = true)
+    (hne : c.author ≠ []) (hfirst : firstAuthor c.author = c.author) : Faith env name c where
+  committer := fun _ hd => (decodeName_std h hd).2
+  author := fun s hd => by
+    obtain ⟨h1, h2⟩ := decodeName_std h hd
+    rw [h1]; exact ⟨hne, hfirst, h2⟩
+  message := fun _ _ _ hd => (decodeName_std h hd).2
+
+theorem faith_of_codecFaithful {env : Env} {e : Bytes} {c : Commit} (he : c.encoding = some e)
+    (hf : e ≠ bs "false") (h : CodecFaithful env c = true) : Faith env e c := by
+  unfold CodecFaithful at h
+  simp only [he, hf, if_false, Bool.and_eq_true] at h
+  obtain ⟨⟨h1, h2⟩, h3⟩ := h
+  refine ⟨?_, ?_, ?_⟩
+  · intro s hd
+    simpa [faithful, reenc, hd] using h1
+  · intro s hd
+    have := h2
+    simp only [faithfulAuthor, hd, Bool.and_eq_true, decide_eq_true_eq] at this
+    exact ⟨this.1.1, this.1.2, this.2⟩
+  · intro m s hm hd
+    simp only [hm] at h3
+    simpa [faithful, reenc, hd] using h3
+
+theorem decodeUsing_ok {env : Env} {name : Bytes} {c : Commit} {cm : PStr} {au msg : Option PStr}
+    (h : decodeUsing env name c = .ok (cm, au, msg)) :
+    decodeName env name c.committer = .ok cm ∧
+    ((au = none ∧ c.committer = c.author) ∨
+      ∃ s, au = some s ∧ c.committer ≠ c.author ∧ decodeName env name c.author = .ok s) ∧
+    ((msg = none ∧ c.message = none) ∨
+      ∃ m s, c.message = some m ∧ msg = some s ∧ decodeName env name m = .ok s) := by
   unfold decodeUsing at h
-  cases hm : c.message <;> simp only [hm] at h <;> (repeat' split at h) <;>
-    simp_all <;> grind
+  cases hc : decodeName env name c.committer with
+  | error e => simp [hc] at h
+  | ok cm' =>
+    simp only [hc] at h
+    by_cases hca : c.committer = c.author
+    · simp only [hca, ne_eq, not_true_eq_false, if_false] at h
+      cases hm : c.message with
+      | none =>
+        simp only [hm, Except.ok.injEq, Prod.mk.injEq] at h
+        obtain ⟨rfl, rfl, rfl⟩ := h
+        exact ⟨rfl, Or.inl ⟨rfl, hca⟩, Or.inl ⟨rfl, rfl⟩⟩
+      | some m =>
+        simp only [hm] at h
+        cases hd : decodeName env name m with
+        | error e => simp [hd] at h
+        | ok s =>
+          simp only [hd, Except.ok.injEq, Prod.mk.injEq] at h
+          obtain ⟨rfl, rfl, rfl⟩ := h
+          exact ⟨rfl, Or.inl ⟨rfl, hca⟩, Or.inr ⟨m, s, rfl, rfl, hd⟩⟩
+    · simp only [hca, ne_eq, not_false_eq_true, if_true] at h
+      cases ha : decodeName env name c.author with
+      | error e => simp [ha, Except.map] at h
+      | ok sa =>
+        simp only [ha, Except.map] at h
+        cases hm : c.message with
+        | none =>
+          simp only [hm, Except.ok.injEq, Prod.mk.injEq] at h
+          obtain ⟨rfl, rfl, rfl⟩ := h
+          exact ⟨rfl, Or.inr ⟨sa, rfl, hca, rfl⟩, Or.inl ⟨rfl, rfl⟩⟩
+        | some m =>
+          simp only [hm] at h
+          cases hd : decodeName env name m with
+          | error e => simp [hd] at h
+          | ok s =>
+            simp only [hd, Except.ok.injEq, Prod.mk.injEq] at h
+            obtain ⟨rfl, rfl, rfl⟩ := h
+            exact ⟨rfl, Or.inr ⟨sa, rfl, hca, rfl⟩, Or.inr ⟨m, s, rfl, rfl, hd⟩⟩
 
 theorem encName_none (impl : Option Bytes) (h : impl = none ∨ impl = some (bs "latin1")) :
     ∀ e, (e = none ∨ e = some (bs "false")) →
@@ -148,57 +274,60 @@ theorem encName_none (impl : Option Bytes) (h : impl = none ∨ impl = some (bs 
   intro e he
   rcases h with rfl | rfl <;> rcases he with rfl | rfl <;> decide
 
-theorem decodeFallback_ok {c : Commit} {cm : PStr} {au msg : Option PStr} {impl : Option Bytes}
-    (h : decodeFallback c = .ok ((cm, au, msg), impl)) :
-    (impl = none ∨ impl = some (bs "latin1")) ∧
-    ∃ k, resolve (implOr impl) = some k ∧
-      cm = ⟨k, c.committer⟩ ∧
-      au = (if c.committer ≠ c.author then some ⟨k, c.author⟩ else none) ∧
-      msg = c.message.map (fun m => ⟨k, m⟩) := by
+theorem decodeFallback_ok {env : Env} {c : Commit} {cm : PStr} {au msg : Option PStr} {impl : Option Bytes}
+    (hwf : PyEnv env) (h : decodeFallback env c = .ok ((cm, au, msg), impl)) :
+    (impl = none ∨ impl = some (bs "latin1")) ∧ isStd (env.lookup (implOr impl)) = true ∧
+      decodeUsing env (implOr impl) c = .ok (cm, au, msg) := by
   unfold decodeFallback at h
   split at h
   · rename_i d hd
     simp only [Except.ok.injEq, Prod.mk.injEq] at h
     obtain ⟨rfl, rfl⟩ := h
-    exact ⟨Or.inl rfl, .utf8, by decide, decodeUsing_ok hd⟩
-  · cases hl : decodeUsing .latin1 c with
+    exact ⟨Or.inl rfl, by simp [implOr, hwf.1, isStd], hd⟩
+  · cases hl : decodeUsing env (bs "latin1") c with
     | error e => simp [hl, Except.map] at h
     | ok d =>
       simp only [hl, Except.map, Except.ok.injEq, Prod.mk.injEq] at h
       obtain ⟨rfl, rfl⟩ := h
-      exact ⟨Or.inr rfl, .latin1, by decide, decodeUsing_ok hl⟩
+      exact ⟨Or.inr rfl, by simp [implOr, hwf.2, isStd], hl⟩
+  · simp at h
 
-/-- what `import_commit` decoded, and that `export_commit` will pick the same codec -/
-theorem importDecode_ok {c : Commit} {cm : PStr} {au msg : Option PStr} {impl : Option Bytes}
-    (h : importDecode c = .ok ((cm, au, msg), impl)) :
-    ∃ k, resolve (encName c.encoding impl) = some k ∧ cm = ⟨k, c.committer⟩ ∧
-      au = (if c.committer ≠ c.author then some ⟨k, c.author⟩ else none) ∧
-      msg = c.message.map (fun m => ⟨k, m⟩) := by
+/-- what `import_commit` decoded, and that `export_commit` will re-encode under
+the same name -/
+theorem importDecode_ok {env : Env} {fx strict : Bool} {c : Commit} {cm : PStr} {au msg : Option PStr}
+    {impl : Option Bytes}
+    (hwf : PyEnv env) (h : importDecode env fx strict c = .ok ((cm, au, msg), impl)) :
+    decodeUsing env (encName c.encoding impl) c = .ok (cm, au, msg) ∧
+    (isStd (env.lookup (encName c.encoding impl)) = true ∨
+      ∃ e, c.encoding = some e ∧ e ≠ bs "false" ∧ encName c.encoding impl = e) := by
   unfold importDecode at h
   cases he : c.encoding with
   | none =>
     simp only [he] at h
-    obtain ⟨hi, k, hk, rest⟩ := decodeFallback_ok h
-    exact ⟨k, by rw [encName_none impl hi none (Or.inl rfl)]; exact hk, rest⟩
+    obtain ⟨hi, hstd, hd⟩ := decodeFallback_ok hwf h
+    rw [encName_none impl hi none (Or.inl rfl)]
+    exact ⟨hd, Or.inl hstd⟩
   | some e =>
     simp only [he] at h
     split at h
     · simp at h
     · by_cases hf : e = bs "false"
       · simp only [hf, ne_eq, not_true_eq_false, if_false] at h
-        obtain ⟨hi, k, hk, rest⟩ := decodeFallback_ok h
-        exact ⟨k, by rw [hf, encName_none impl hi _ (Or.inr rfl)]; exact hk, rest⟩
+        obtain ⟨hi, hstd, hd⟩ := decodeFallback_ok hwf h
+        rw [hf, encName_none impl hi _ (Or.inr rfl)]
+        exact ⟨hd, Or.inl hstd⟩
       · simp only [hf, ne_eq, not_false_eq_true, if_true] at h
-        cases hr : resolve e with
-        | none => simp [hr] at h
-        | some k =>
-          simp only [hr] at h
-          cases hd : decodeUsing k c with
-          | error x => simp [hd, Except.map] at h
-          | ok d =>
-            simp only [hd, Except.map, Except.ok.injEq, Prod.mk.injEq] at h
+        cases hd : decodeUsing env e c with
+        | error x => simp [hd] at h
+        | ok d =>
+          simp only [hd] at h
+          split at h
+          · simp at h
+          · simp only [Except.ok.injEq, Prod.mk.injEq] at h
             obtain ⟨rfl, rfl⟩ := h
-            exact ⟨k, by simp [encName, hf, hr], decodeUsing_ok hd⟩
+            have hn : encName (some e) none = e := by simp [encName, hf]
+            rw [hn]
+            exact ⟨hd, Or.inr ⟨e, rfl, hf, rfl⟩⟩
 
 theorem importExtra_unknown (strict : Bool) (k v : Bytes)
     (hk : k ≠ bs "HG:rename-source" ∧ k ≠ bs "HG:extra") :
@@ -251,14 +380,6 @@ theorem importExtra_unknown (strict : Bool) (k v : Bytes)
           obtain ⟨ls', un'⟩ := p
           simp [hr, bind, Except.bind, pure, Except.pure] at h
           rw [← h.2]; simp
-
-instance {ε α} [DecidableEq ε] [DecidableEq α] : DecidableEq (Except ε α) := fun a b =>
-  match a, b with
-  | .ok x, .ok y => if h : x = y then isTrue (by rw [h]) else isFalse (by intro e; cases e; exact h rfl)
-  | .error x, .error y => if h : x = y then isTrue (by rw [h]) else isFalse (by intro e; cases e; exact h rfl)
-  | .ok _, .error _ => isFalse (by intro e; cases e)
-  | .error _, .ok _ => isFalse (by intro e; cases e)
-
 
 theorem split1_none (sep : UInt8) : ∀ (t : Bytes), sep ∉ t → split1 sep t = [t]
   | [], _ => rfl
